@@ -423,6 +423,18 @@ Proof.
   destruct (TR_alloc false SEG_SIZE s) as [M T]. destruct (alloc false SEG_SIZE s) as [[id|] s1]; leaf.
 Qed.
 
+Lemma fix_ambiguity_owned_m_TR m : TR (fix_ambiguity_owned_m csize m).
+Proof.
+  intros s. unfold fix_ambiguity_owned_m. destruct (match m_abs m with true => _ | false => _ end); [|apply (TR_ret (true, m))].
+  destruct (TR_alloc false SEG_SIZE s) as [M T]. destruct (alloc false SEG_SIZE s) as [[id|] s1]; [|leaf].
+  destruct (TR_alloc false (tlen [46%N] * csize)%N s1) as [M2 T2].
+  destruct (alloc false (tlen [46%N] * csize)%N s1) as [[b|] s2]; [leaf|]. cbn [fst snd] in *.
+  pose proof (ro_free_blk id) as G.
+  split; [eapply mono_trans; [exact M|eapply mono_trans; [exact M2|apply (ro_mono _ _ G)]]|]. intros C.
+  assert (C2 : clean s s2) by (apply (clean_ro _ _ _ G); [eapply mono_trans; eauto|exact C]).
+  rewrite T by cl. cbv beta iota. rewrite T2 by cl. cbv beta iota. rewrite (ro_np _ _ G). reflexivity.
+Qed.
+
 Lemma fix_empty_trail_m_TR m : TR (fix_empty_trail_m m).
 Proof.
   intros s. unfold fix_empty_trail_m. destruct (negb (m_host_set m)); [|apply (TR_ret m)].
@@ -490,17 +502,22 @@ Proof.
   set (relative := negb (is_some (t_val (m_scheme m))) && negb (m_abs m) && negb (m_host_set m)). clearbody relative.
   assert (Tail : forall m1 done1 owned, TR (fun s1 =>
             let '(ok, m2, s2) := remove_dot_segments_m relative owned m1 s1 in
-            if ok then let '(m3, s3) := fix_empty_trail_m m2 s2 in (Some (m3, done1), m3, done1, s3)
+            if ok then
+              let '(ok', m2', s2') := fix_ambiguity_owned_m csize m2 s2 in
+              if ok' then let '(m3, s3) := fix_empty_trail_m m2' s2' in (Some (m3, done1), m3, done1, s3)
+              else (@None (muri * N), m2', done1, s2')
             else (@None (muri * N), m2, done1, s2))).
   { intros m1 done1 owned s1. destruct (remove_dot_segments_m_TR relative owned m1 s1) as [M T].
     destruct (remove_dot_segments_m relative owned m1 s1) as [[[|] m2] s2]; [|leaf].
-    destruct (fix_empty_trail_m_TR m2 s2) as [M2 T2]. destruct (fix_empty_trail_m m2 s2) as [m3 s3]. leaf. }
+    destruct (fix_ambiguity_owned_m_TR m2 s2) as [Ma Ta]. destruct (fix_ambiguity_owned_m csize m2 s2) as [[[|] m2'] s2']; [|leaf].
+    destruct (fix_empty_trail_m_TR m2' s2') as [M2 T2]. destruct (fix_empty_trail_m m2' s2') as [m3 s3]. leaf. }
   destruct o.
   - apply Tail.
   - destruct (norm_segs_malloc_TR (m_segs m) [] s) as [M T]. destruct (norm_segs_malloc csize [] (m_segs m) s) as [[[|] segs] s1]; [|leaf].
     destruct (Tail (set_m_segs segs m) (N.lor done B_PATH) (false || negb (N.land (N.lor done B_PATH) B_PATH =? 0)%N) s1) as [M2 T2].
     cbn [fst snd] in *. split; [eapply mono_trans; eauto|]. intros C. rewrite T by cl. cbv beta iota. rewrite T2 by cl.
     destruct (remove_dot_segments_m relative _ (set_m_segs segs m) s1) as [[[|] ?] ?]; [|reflexivity].
+    destruct (fix_ambiguity_owned_m csize _ _) as [[[|] ?] ?]; [|reflexivity].
     destruct (fix_empty_trail_m _ _). reflexivity.
 Qed.
 
